@@ -61,16 +61,20 @@ pub fn operand_def(name: &str, kind: &str, o: &str, tilde: bool) -> String {
   }
 }
 
-pub fn exec(case: &str) -> String {
+pub fn source(case: &str) -> String {
   let f: Vec<&str> = case.split('\t').collect();
-  let src = if f[0] == "binop" {
+  if f[0] == "binop" {
     let sym = OPS.iter().find(|(n, _)| *n == f[1]).unwrap().1;
     let tilde = f[5] == "mut";
     format!("{}{}a {} b", operand_def("a", f[2], f[3], tilde), operand_def("b", f[2], f[4], tilde), sym)
   } else {
     let sym = if f[1] == "neg" { "-" } else { "!" };
     format!("{}{}a", operand_def("a", f[2], f[3], f[4] == "mut"), sym)
-  };
+  }
+}
+
+pub fn exec(case: &str) -> String {
+  let src = source(case);
   match eval(&src) {
     Ok(v) => canon(&v),
     Err(e) => if e == "hostpanic" || e == "notcode" || e == "parseerr" || e == "parsepanic" { format!("harness:{}:{}", e, hexs(&src)) } else { "err".to_string() },
